@@ -147,7 +147,7 @@ def arrLen : Option Arr → Nat
 def arrNextLoop (values : List (Option Val)) (len : Nat) : Nat → Nat → Option (Nat × Option Val)
   | 0, _ => none
   | fuel + 1, i =>
-    if i = len then some (0, none)
+    if i ≥ len then some (0, none)   -- `if i >= int64(a.len) { return }`
     else do
       let v ← values[i]?
       if v.isSome then pure (i + 1, v) else arrNextLoop values len fuel (i + 1)
@@ -157,7 +157,8 @@ def arrNext (a : Option Arr) (i : Int) : Option (Nat × Option Val × Bool) :=
   match a with
   | none => some (0, none, false)
   | some a =>
-    if decide (0 ≤ i) && decide (i ≤ (a.len : Int)) then do
+    -- "i may be above a.len if items were removed during the iteration"
+    if decide (0 ≤ i) && decide (i ≤ (a.values.length : Int)) then do
       let (j, v) ← arrNextLoop a.values a.len (a.len - i.toNat + 1) i.toNat
       pure (j, v, true)
     else some (0, none, false)
@@ -498,33 +499,38 @@ def insertHash (t : Mixed) (k : Key) (v : Val) : Option Mixed := do
   let h' ← hSet hash h k v
   pure { t with hash := some h' }
 
-/-- `mixedTable.insert` (`v` is not nil: `Table.Set` sends nil to `remove`) -/
+/-- `mixedTable.insert` (`v` is not nil: `Table.Set` sends nil to `remove`).  After the array
+    attempt the key is normalised and `t.hashTable.reset(k, v)` is tried first: "assigning to an
+    existing field must not rehash the table" -/
 def insert (t : Mixed) (k : Key) (v : Val) : Option Mixed :=
   match toInt k with
   | some i => do
     let (a1, ok1) ← arrSetValue t.arr i (some v)
     if ok1 then pure { t with arr := a1 }
+    else do
+      let (h, w) ← hReset hash t.hash (.int i) v   -- k = IntValue(i)
+      if w then pure { t with hash := h }
+      else if hFull t.hash then do
+        let t' ← grow hash t
+        let (a2, ok2) ← arrSetValue t'.arr i (some v)
+        if ok2 then pure { t' with arr := a2 } else insertHash hash t' (.int i) v
+      else insertHash hash t (.int i) v
+  | none => do
+    let (h, w) ← hReset hash t.hash k v
+    if w then pure { t with hash := h }
     else if hFull t.hash then do
-      let t' ← grow hash t
-      let (a2, ok2) ← arrSetValue t'.arr i (some v)
-      if ok2 then pure { t' with arr := a2 } else insertHash hash t' (.int i) v
-    else insertHash hash t (.int i) v   -- k = IntValue(i)
-  | none =>
-    if hFull t.hash then do
       let t' ← grow hash t
       insertHash hash t' k v
     else insertHash hash t k v
 
-/-- `mixedTable.reset` (`v` not nil).  In the Go code `ok, wasSet = t.array.resetValue(i, v)`
-    overwrites the `ok` of `ToIntNoString`, so the following `if ok { k = IntValue(i) }` never runs
-    when the key is outside the array: the hash part is searched with the ORIGINAL key. -/
+/-- `mixedTable.reset` (`v` not nil) -/
 def reset (t : Mixed) (k : Key) (v : Val) : Option (Mixed × Bool) :=
   match toInt k with
   | some i => do
-    let (a, ok, wasSet) ← arrResetValue t.arr i (some v)
-    if ok then pure ({ t with arr := a }, wasSet)
+    let (a, inArray, wasSet) ← arrResetValue t.arr i (some v)
+    if inArray then pure ({ t with arr := a }, wasSet)
     else do
-      let (h, w) ← hReset hash t.hash k v   -- not `.int i`
+      let (h, w) ← hReset hash t.hash (.int i) v   -- k = IntValue(i)
       pure ({ t with hash := h }, w)
   | none => do
     let (h, w) ← hReset hash t.hash k v
@@ -578,7 +584,9 @@ def next (t : Mixed) (k : Option Key) : Option NextRes :=
   | none => if t.arr.isNone then hNext hash t.hash none else nextViaArray hash t 0   -- "pretend that k == 0"
   | some key =>
     match toInt key with
-    | some i => nextViaArray hash t i
+    | some i =>
+      if i = 0 then hNext hash t.hash (some (.int 0))   -- "0 is not the start position: it is a key of the hash table"
+      else nextViaArray hash t i
     | none => hNext hash t.hash k
 
 /-- `Table.Set`: nil goes to `remove` -/
